@@ -21,6 +21,7 @@ from guppylang import guppy
 from guppylang.std.builtins import array
 from guppylang.std.option import Option
 from guppylang.std.quantum import qubit
+from guppylang.std.builtins import frozenarray, nat
 
 T = guppy.type_var("T")
 U = guppy.type_var("U")
@@ -378,3 +379,9 @@ def copy_drop(t, inst=None) -> tuple[bool, bool]:
         cs = [copy_drop(subst(f)) for f in STRUCT_FIELDS[t[1]]]
         return all(c for c, _ in cs), all(d for _, d in cs)
     raise AssertionError(t)
+
+
+STRUCT_MODULE_EXTRA = '''
+from guppylang.std.builtins import frozenarray, nat
+from guppylang.std.option import Option
+'''
